@@ -109,6 +109,7 @@ def float_case(rng, n_pts=40):
     wy = (ymax - ymin) or abs(ymax) or 1.0
     pts = np.empty((n_pts, 2))
     how = []
+    near_mag = {}
     for k in range(n_pts):
         r = rng.random()
         if r < 0.20:
@@ -145,9 +146,11 @@ def float_case(rng, n_pts=40):
                  by if rng.random() < 0.5 else
                  by + rng.choice([-1, 1]) * mag * max(abs(by), wy))
             how.append("near_edge")
+            near_mag[k] = float(mag)
         pts[k] = p
     meta = {"kind": kind, "L": L, "log10_sx": round(float(ex), 2),
-            "log10_sy": round(float(ey), 2), "offset": offset, "how": how}
+            "log10_sy": round(float(ey), 2), "offset": offset, "how": how,
+            "near_mag": near_mag}
     return np.ascontiguousarray(v), pts, meta
 
 
@@ -167,7 +170,10 @@ def file_case(rng, features, max_filters=20):
     counter = 0
     filters = []
     explicit_ids = rng.random() < 0.5
-    for _ in range(k):
+    # a name containing '=' makes the whole file unloadable (finding poly-name-equals-sign);
+    # keep such files rare so that the other round-trip monitors see enough loadable files
+    equals_at = int(rng.integers(0, k)) if rng.random() < 0.05 else -1
+    for pos in range(k):
         r = rng.random()
         if r < 0.4:
             n = int(rng.integers(3, 7))
@@ -180,12 +186,12 @@ def file_case(rng, features, max_filters=20):
             pts, _q, _m = float_case(rng, n_pts=1)
             ptype = "float"
         r = rng.random()
-        if r < 0.15:
-            name, nkind = None, "default"
-        elif r < 0.90:
-            name, nkind = NAMES_PLAIN[int(rng.integers(0, len(NAMES_PLAIN)))], "plain"
-        elif r < 0.96:
+        if pos == equals_at:
             name, nkind = NAMES_EQUALS[int(rng.integers(0, len(NAMES_EQUALS)))], "equals"
+        elif r < 0.15:
+            name, nkind = None, "default"
+        elif r < 0.96:
+            name, nkind = NAMES_PLAIN[int(rng.integers(0, len(NAMES_PLAIN)))], "plain"
         else:
             name, nkind = NAMES_PADDED[int(rng.integers(0, len(NAMES_PADDED)))], "padded"
         i, j = rng.choice(len(features), 2, replace=rng.random() < 0.05)
